@@ -22,6 +22,9 @@ fn cfgs() -> Vec<(String, PopenConfig)> {
         let r = |p: bool| if p { Redirection::Pipe } else { Redirection::None };
         v.push((format!("pipes={} detached={}", pipes, detached), PopenConfig { stdin: r(pipes), stdout: r(pipes), stderr: r(pipes), detached, ..Default::default() }));
     } }
+    // a stream merged into an inherited standard stream: the library wraps the parent's own descriptor 1 or 2 for the child
+    v.push(("stderr merged into the inherited stdout".into(), PopenConfig { stderr: Redirection::Merge, ..Default::default() }));
+    v.push(("stdout merged into the inherited stderr".into(), PopenConfig { stdout: Redirection::Merge, ..Default::default() }));
     v
 }
 fn expect_err(what: &str, r: Result<Popen, PopenError>, errno: i32, fds0: usize, bad: &mut u32) {
